@@ -1,4 +1,166 @@
-(* C07 — the typegraph solver decides binding visibility correctly.  (theorems added below) *)
-From Coq Require Import List Arith Bool.
-From PV Require Import Typegraph.Graph Typegraph.Solver.
+(* C07 — the typegraph solver decides binding visibility correctly.
+   Property theorems only; each is closed by [exact] and followed by Print Assumptions.
+   Model: Typegraph/Graph.v + Solver.v (line-by-line transcription of solver.cc, validated against
+   cfg.so on every run by harness/props/c07.py).  Spec: Typegraph/Spec.v. *)
+From Coq Require Import List Arith Bool Relations.
+From PV Require Import Typegraph.Graph Typegraph.Solver Typegraph.Spec Typegraph.SetLemmas
+  Typegraph.RfgProofs Typegraph.PathProofs Typegraph.SearchProofs Typegraph.SolverProofs
+  Typegraph.ExactProofs.
 Import ListNotations.
+
+(* ---- building blocks ---------------------------------------------------------------------- *)
+
+(* remove_finished_goals (the explicit action stack with its undo actions, the seen set, the
+   origin-without-source-set dead end) returns exactly the outcomes of the recursive resolution
+   relation: sound and complete for the resolution step, any goal set, any graph. *)
+Theorem remove_finished_goals_exact : forall g pos fuel goals results,
+  ssorted goals = true ->
+  remove_finished_goals fuel g pos goals = Some results ->
+  forall r, In r results <-> resolves_at g pos goals r.
+Proof. exact rfg_correct. Qed.
+Print Assumptions remove_finished_goals_exact.
+
+(* every goal is either removed (then it originates at the position) or still a goal (then it does not) *)
+Theorem resolution_partitions_goals : forall g pos goals R N,
+  resolves_at g pos goals (R, N) ->
+  (forall b, In b goals -> In b R \/ In b N) /\
+  (forall b, In b R -> find_origin g b pos <> None) /\
+  (forall b, In b N -> find_origin g b pos = None).
+Proof. exact resolves_at_facts. Qed.
+Print Assumptions resolution_partitions_goals.
+
+(* FindShortestPathToNode returns a non-empty path iff a backward path exists whose nodes before
+   the last one avoid `blocked` (finish is tested before blocked: the last node may be blocked). *)
+Theorem shortest_path_exact : forall g start finish blocked sp,
+  find_shortest_path g start finish blocked = Some sp ->
+  (sp <> [] <-> creach g blocked start finish).
+Proof. exact find_shortest_path_spec. Qed.
+Print Assumptions shortest_path_exact.
+
+(* FindNodeBackwards: path_exists iff such a path exists; every node it reports is a conditional
+   node backward reachable from the start. *)
+Theorem find_node_backwards_sound : forall g start finish blocked ex path,
+  find_node_backwards_compute g start finish blocked = Some (ex, path) ->
+  (ex = true <-> creach g blocked start finish) /\
+  (forall x, In x path -> breach g start x /\ cond g x <> None).
+Proof. exact fnb_compute_spec. Qed.
+Print Assumptions find_node_backwards_sound.
+
+(* ---- clause (i): exactness on acyclic condition-free graphs ------------------------------- *)
+
+(* FULL STATEMENT (DESIGN thm 1):
+     acyclic g -> no_conditions g -> solve fuel g st S n = Some b -> (b = true <-> Expl g n S).
+   Proved below: (a) the memoised search proper (RecallOrFindSolution from a fresh solver, any goal
+   set) is exact; (b) Solve, for any sequence of queries sharing one solver: every `true` is
+   explained, and every `false` is either unexplained or a CanHaveSolution short-circuit justified by
+   ONE goal of the set that is unexplained on its own.  What is missing for the full statement is
+   only monotonicity of Expl in the goal set (Expl g n S -> b in S -> Expl g n [b]), which would
+   turn the second disjunct into the first; it is checked by the harness oracle (clause i compares
+   HasCombination with Expl directly) but not proved here - hence `_partial`. *)
+Theorem search_exact_acyclic : forall g fuel s st' r,
+  acyclic g -> no_conditions g = true -> ssorted (snd s) = true ->
+  recall_or_find fuel fuel g sstate_empty s [] = Some (st', r) ->
+  (r = true <-> Expl g (fst s) (snd s)).
+Proof. exact search_exact_acyclic_lemma. Qed.
+Print Assumptions search_exact_acyclic.
+
+Theorem solver_exact_acyclic_partial : forall g fuel qs st' answers,
+  acyclic g -> no_conditions g = true ->
+  run_queries fuel g sstate_empty qs = Some (st', answers) ->
+  Forall2 (fun q a =>
+    (a = true -> Expl g (snd q) (sof_list (fst q))) /\
+    (a = false -> ~ Expl g (snd q) (sof_list (fst q)) \/
+                  (1 < length (fst q) /\ exists b, In b (fst q) /\ ~ Expl g (snd q) [b]))) qs answers.
+Proof. exact solver_exact_acyclic_partial_lemma. Qed.
+Print Assumptions solver_exact_acyclic_partial.
+
+(* ---- clause (iii): accepted => every goal individually reachable -------------------------- *)
+
+(* FULL STATEMENT (DESIGN thm 3): on EVERY graph, solve ... = Some true -> Reach1 g n S.
+   The faithful model refutes it (next theorem), and the witness reproduces on cfg.so (corpus/C07,
+   known finding iii:unreachable-goal-accepted:cyclic+cond).  Proved: it holds, for any sequence of
+   queries sharing one solver, on every acyclic graph (conditions allowed) and on every graph
+   without node conditions (cycles allowed); i.e. it can only fail on a graph that has BOTH a CFG
+   cycle and a node condition. *)
+Theorem accepted_individually_reachable_partial : forall g fuel qs st' answers,
+  acyclic g \/ no_conditions g = true ->
+  run_queries fuel g sstate_empty qs = Some (st', answers) ->
+  Forall2 (fun q a => a = true -> Reach1 g (snd q) (fst q)) qs answers.
+Proof. exact accepted_reachable_partial_lemma. Qed.
+Print Assumptions accepted_individually_reachable_partial.
+
+Theorem accepted_individually_reachable_refuted :
+  exists g fuel n S, wf_graph g = true /\ solve_fresh fuel g S n = Some true /\ ~ Reach1 g n S.
+Proof. exact accepted_reachable_refuted_lemma. Qed.
+Print Assumptions accepted_individually_reachable_refuted.
+
+(* ---- clauses (ii) and (iv) ----------------------------------------------------------------- *)
+(* (ii) solver_complete_with_conditions : acyclic g -> Expl_c g n S -> solve g n S = Some true, and
+   (iv) accepted_subset_closed : solve g n S = Some true -> incl S' S -> solve g n S' = Some true
+   are NOT proved; both are decided on every run by the independent oracle on the implementation's
+   answers (harness/props/c07_oracle.py), exhaustively on the small scopes of the thorough tier. *)
+
+(* ---- non-vacuity --------------------------------------------------------------------------- *)
+Ltac rank_id := apply topo_ids_acyclic; reflexivity.
+
+(* diamond 0 -> {1,2} -> 3; variable 0 is bound at node 0 (binding 0) and RE-BOUND on the arm
+   through node 1 (binding 1); binding 2 (variable 1) is computed at node 3 from binding 0. *)
+Definition diamond : graph :=
+  mkGraph [mkNode [] None; mkNode [0] None; mkNode [0] None; mkNode [1; 2] None]
+          [mkBinding 0 [mkOrigin 0 [[]]]; mkBinding 0 [mkOrigin 1 [[]]]; mkBinding 1 [mkOrigin 3 [[0]]]].
+Example diamond_hyps : wf_graph diamond = true /\ no_conditions diamond = true /\ acyclic diamond.
+Proof. split; [reflexivity|]. split; [reflexivity|]. rank_id. Qed.
+Example diamond_answers :
+  option_map snd (run_queries 100 diamond sstate_empty
+    [([0], 3); ([1], 3); ([0; 1], 3); ([0], 1); ([2], 3); ([1; 2], 3)])
+  = Some [true; true; false; false; true; false].
+Proof. vm_compute. reflexivity. Qed.
+
+(* two-level source-set chain along 0 -> 1 -> 2: binding 2 (node 2) from binding 1 (node 1) from
+   binding 0 (node 0); in [chain_rebound] node 1 also re-binds the variable of binding 0, which
+   hides binding 0 from node 1 and with it the whole chain. *)
+Definition chain : graph :=
+  mkGraph [mkNode [] None; mkNode [0] None; mkNode [1] None]
+          [mkBinding 0 [mkOrigin 0 [[]]]; mkBinding 1 [mkOrigin 1 [[0]]]; mkBinding 2 [mkOrigin 2 [[1]]]].
+Definition chain_rebound : graph :=
+  mkGraph [mkNode [] None; mkNode [0] None; mkNode [1] None]
+          [mkBinding 0 [mkOrigin 0 [[]]]; mkBinding 1 [mkOrigin 1 [[0]]]; mkBinding 2 [mkOrigin 2 [[1]]];
+           mkBinding 0 [mkOrigin 1 [[]]]].
+Example chain_hyps : wf_graph chain = true /\ no_conditions chain = true /\ acyclic chain /\
+                     wf_graph chain_rebound = true /\ acyclic chain_rebound.
+Proof. split; [reflexivity|]. split; [reflexivity|]. split; [rank_id|]. split; [reflexivity|rank_id]. Qed.
+Example chain_answers :
+  solve_fresh 100 chain [2] 2 = Some true /\ solve_fresh 100 chain_rebound [2] 2 = Some false /\
+  solve_fresh 100 chain_rebound [0] 0 = Some true.
+Proof. vm_compute. repeat split; reflexivity. Qed.
+
+(* a conflict: binding 2 needs bindings 0 and 1 of ONE variable together *)
+Definition conflict : graph :=
+  mkGraph [mkNode [] None; mkNode [0] None]
+          [mkBinding 0 [mkOrigin 0 [[]]]; mkBinding 0 [mkOrigin 0 [[]]]; mkBinding 1 [mkOrigin 1 [[0; 1]]]].
+Example conflict_hyps : wf_graph conflict = true /\ no_conditions conflict = true /\ acyclic conflict.
+Proof. split; [reflexivity|]. split; [reflexivity|]. rank_id. Qed.
+Example conflict_answers :
+  solve_fresh 100 conflict [0] 1 = Some true /\ solve_fresh 100 conflict [1] 1 = Some true /\
+  solve_fresh 100 conflict [2] 1 = Some false /\ solve_fresh 100 conflict [0; 1] 1 = Some false.
+Proof. vm_compute. repeat split; reflexivity. Qed.
+
+(* the exactness theorem applied: the `true` above is explained, the `false` is not *)
+Example diamond_explained : Expl diamond 3 [0] /\ ~ Expl diamond 1 [0].
+Proof.
+  pose proof (search_exact_acyclic diamond 100 (3, [0])) as H3.
+  pose proof (search_exact_acyclic diamond 100 (1, [0])) as H1.
+  destruct diamond_hyps as [_ [Hn Ha]]. split.
+  - eapply H3; [exact Ha | exact Hn | reflexivity | vm_compute; reflexivity | reflexivity].
+  - intros He. eapply H1 in He; [| exact Ha | exact Hn | reflexivity | vm_compute; reflexivity]. discriminate.
+Qed.
+
+(* an origin without any source set (not constructible from Python, reachable from C++) is a dead
+   end of remove_finished_goals: the goal is neither explained nor kept *)
+Example origin_without_source_set :
+  remove_finished_goals 100 (mkGraph [mkNode [] None] [mkBinding 0 [mkOrigin 0 []]]) 0 [0] = Some [].
+Proof. vm_compute. reflexivity. Qed.
+
+(* the refutation witness is cyclic and conditional, as the partial theorem demands *)
+Example refute_iii_class : acyclicb refute_iii = false /\ no_conditions refute_iii = false.
+Proof. vm_compute. split; reflexivity. Qed.
